@@ -364,6 +364,14 @@ theorem depth_metrics_with_user_labels {c : Dag} {P : Reg → List NodeId} {L : 
   ⟨calculateRegDepth_eq_spec_sched_of g hk hS, fun hne _ hLp => circuitDepth_eq_spec_sched_of g hk hS hne hLp,
     fun hne => circuitDepth_model_eq_spec_of g hk hS hne, longestPathLen_spec_of g hk⟩
 
+/-- **the two label-index counts need only that no operation carries one of the queried names as a label** (`CountOK`): on every
+    circuit satisfying DagInv with that property — arbitrary other user labels — `CircuitCnotCount` and `CircuitMeasureCount` equal
+    the counts on the operation list of any schedule -/
+theorem counts_with_user_labels {c : Dag} {P : Reg → List NodeId} {L : List (NodeId × Op)} (g : Good c P) (hc : CountOK c)
+    (hS : Sched c P L) :
+    Metrics.cnotCount c = Spec.cnotCount (L.map (·.2)) ∧ Metrics.measureCount c = Spec.measureCount (L.map (·.2)) :=
+  ⟨cnotCount_eq_spec_sched_of g hc hS, measureCount_eq_spec_sched_of g hc hS⟩
+
 /-- a decidable sufficient condition for `NoInputKey` -/
 theorem noInputKey_of_check {c : Dag}
     (h : c.nodes.all (fun p => match p.1 with | .op _ => !p.2.indexKeys.contains "Input" | _ => true) = true) : NoInputKey c := by
